@@ -20,6 +20,16 @@ import DateutilVerif.Proofs.RRuleMinutelyBH
 import DateutilVerif.Proofs.RRuleSecondlyBS
 import DateutilVerif.Proofs.RRuleMinutelyBHM
 import DateutilVerif.Proofs.RRuleWeeklyW
+import DateutilVerif.Proofs.RRuleEDaily
+import DateutilVerif.Proofs.RRuleEHourly
+import DateutilVerif.Proofs.RRuleEHourlyBy
+import DateutilVerif.Proofs.RRuleEMinutely
+import DateutilVerif.Proofs.RRuleEMinutelyBy
+import DateutilVerif.Proofs.RRuleEMinutelyBH
+import DateutilVerif.Proofs.RRuleEMinutelyBHM
+import DateutilVerif.Proofs.RRuleESecondly
+import DateutilVerif.Proofs.RRuleESecondlyBHM
+import DateutilVerif.Proofs.RRuleESecondlyBS
 
 namespace RRule
 open Cal
@@ -47,6 +57,11 @@ theorem optNonempty_elim {o : Option (List Int)} (h : optNonempty o) : o = none 
   · exact Or.inl h
   · obtain ⟨l, hl, hne, _⟩ := someWith_elim h
     exact Or.inr ⟨l, hl, hne⟩
+
+theorem ne_none_elim {α} {o : Option α} (h : o ≠ none) : ∃ l, o = some l := by
+  cases o with
+  | none => exact absurd rfl h
+  | some l => exact ⟨l, rfl⟩
 
 theorem family_sound (f : Family) (h : family a = some f) : SupportedBy a f := by
   unfold family at h
@@ -142,5 +157,43 @@ theorem iter_eq_spec_supported (a : Args) (r : Rule) (h : construct a = .ok r) (
       | none => exact absurd hb h5
       | some l => exact ⟨l, rfl⟩
     exact iter_eq_spec_secondly_bysecond ⟨hf, hi, hv, wArgOk_elim h1, h2, hz, optNonempty_elim h3, optNonempty_elim h4, hs5, h6⟩ h n hr
+
+  | dailyE =>
+    obtain ⟨hf, ⟨⟨hi, hv, hz⟩, hw, he⟩⟩ := hs
+    exact ⟨n, by omega, by simp [Family.periodsPerTurn],
+      iter_eq_spec_daily_easter ⟨hf, hi, hv, hw, hz, someWith_elim he⟩ h n hr.1 hr.2⟩
+  | hourlyE =>
+    obtain ⟨hf, ⟨⟨hi, hv, hz⟩, hw, he⟩, h3, h4, h5⟩ := hs
+    exact iter_eq_spec_hourly_easter ⟨hf, hi, hv, hw, someWith_elim he, hz, h3, h4, h5⟩ h n hr.1 hr.2
+  | hourlyByhourE =>
+    obtain ⟨hf, ⟨⟨hi, hv, hz⟩, hw, he⟩, h3, h4, h5⟩ := hs
+    obtain ⟨l, hl, _, hlr⟩ := someWith_elim h3
+    exact iter_eq_spec_hourly_byhour_easter ⟨hf, hi, hv, hw, someWith_elim he, hz, ⟨l, hl, hlr⟩, h4, h5⟩ h n hr.1 hr.2
+  | minutelyE =>
+    obtain ⟨hf, ⟨⟨hi, hv, hz⟩, hw, he⟩, h3, h4, h5⟩ := hs
+    exact iter_eq_spec_minutely_easter ⟨hf, hi, hv, hw, someWith_elim he, hz, h3, h4, h5⟩ h n hr.1 hr.2
+  | minutelyByminuteE =>
+    obtain ⟨hf, ⟨⟨hi, hv, hz⟩, hw, he⟩, h3, h4, h5⟩ := hs
+    obtain ⟨l, hl, _, hlr⟩ := someWith_elim h4
+    exact iter_eq_spec_minutely_byminute_easter ⟨hf, hi, hv, hw, someWith_elim he, hz, h3, ⟨l, hl, hlr⟩, h5⟩ h n hr.1 hr.2
+  | minutelyByhourE =>
+    obtain ⟨hf, ⟨⟨hi, hv, hz⟩, hw, he⟩, h3, h4, h5, h6⟩ := hs
+    obtain ⟨l, hl, hne, _⟩ := someWith_elim h3
+    exact iter_eq_spec_minutely_byhour_easter ⟨hf, hi, hv, hw, someWith_elim he, hz, ⟨l, hl, hne⟩, h4, h5, h6⟩ h n hr.1 hr.2
+  | minutelyByhmE =>
+    obtain ⟨hf, ⟨⟨hi, hv, hz⟩, hw, he⟩, h3, h4, h5, h6⟩ := hs
+    exact iter_eq_spec_minutely_bhm_easter
+      ⟨hf, hi, hv, hw, someWith_elim he, hz, optNonempty_elim h3, ne_none_elim h4, h5, h6⟩ h n hr.1 hr.2
+  | secondlyE =>
+    obtain ⟨hf, ⟨⟨hi, hv, hz⟩, hw, he⟩, h3, h4, h5⟩ := hs
+    exact iter_eq_spec_secondly_easter ⟨hf, hi, hv, hw, someWith_elim he, hz, h3, h4, h5⟩ h n hr.1 hr.2
+  | secondlyByhmE =>
+    obtain ⟨hf, ⟨⟨hi, hv, hz⟩, hw, he⟩, h3, h4, h5, h6⟩ := hs
+    exact iter_eq_spec_secondly_bhm_easter
+      ⟨hf, hi, hv, hw, someWith_elim he, hz, optNonempty_elim h3, optNonempty_elim h4, h5, h6⟩ h n hr.1 hr.2
+  | secondlyBysecondE =>
+    obtain ⟨hf, ⟨⟨hi, hv, hz⟩, hw, he⟩, h3, h4, h5, h6⟩ := hs
+    exact iter_eq_spec_secondly_bysecond_easter
+      ⟨hf, hi, hv, hw, someWith_elim he, hz, optNonempty_elim h3, optNonempty_elim h4, ne_none_elim h5, h6⟩ h n hr.1 hr.2
 
 end RRule
